@@ -89,9 +89,9 @@ func (fx *fctx) exec(st *State, s ast.Stmt) *State {
 		}
 		c := fx.evalBool(st, s.Cond)
 		s1 := st.clone()
-		s1.assume(c)
+		s1.branch(c)
 		s2 := st.clone()
-		s2.assume(ts.Not(c))
+		s2.branch(ts.Not(c))
 		if !s1.dead {
 			s1 = fx.execBlock(s1, s.Body.List)
 		}
@@ -592,6 +592,13 @@ func (fx *fctx) execLoop(st *State, s ast.Stmt, cond func(*State) *Term, body fu
 	}
 	pre := st.clone()
 	h := st.clone()
+	if allocs || top {
+		// the allocation frontier at the loop head is arbitrary but not below the one before the loop;
+		// havocked slices/pointers are bounded by the new frontier
+		na := ts.Fresh("alloc", SInt)
+		h.assume(ts.Ge(na, pre.alloc))
+		h.alloc = na
+	}
 	for v := range assigned {
 		cur, ok := h.vars[v]
 		if !ok || cur.Cl != nil {
@@ -617,11 +624,6 @@ func (fx *fctx) execLoop(st *State, s ast.Stmt, cond func(*State) *Term, body fu
 			return false
 		})
 	}
-	if allocs || top {
-		na := ts.Fresh("alloc", SInt)
-		h.assume(ts.Ge(na, pre.alloc))
-		h.alloc = na
-	}
 	// re-assume type facts for havocked slices relative to new alloc done in havocValue
 	if lc != nil {
 		for _, cl := range lc.Invariants {
@@ -637,9 +639,9 @@ func (fx *fctx) execLoop(st *State, s ast.Stmt, cond func(*State) *Term, body fu
 	}
 	c := cond(head)
 	bodySt := head.clone()
-	bodySt.assume(c)
+	bodySt.branch(c)
 	exitSt := head.clone()
-	exitSt.assume(ts.Not(c))
+	exitSt.branch(ts.Not(c))
 	jf := &jumpFrame{isLoop: true, label: fx.pendingLabel}
 	fx.pendingLabel = ""
 	fx.jumps = append(fx.jumps, jf)
@@ -873,8 +875,8 @@ func (fx *fctx) execSwitch(st *State, s *ast.SwitchStmt) *State {
 			continue
 		}
 		entry := noneMatched.clone()
-		entry.assume(conds[i])
-		noneMatched.assume(ts.Not(conds[i]))
+		entry.branch(conds[i])
+		noneMatched.branch(ts.Not(conds[i]))
 		runBody(i, cc, entry)
 	}
 	if defaultClause != nil {
